@@ -427,7 +427,8 @@ class SemanticPointer(Fixed):
     def dot(self, other):
         """Return the dot product of the two vectors."""
         if isinstance(other, Fixed):
-            infer_types(self, other)
+            if infer_types(self, other) == TAnyVocab:
+                self._ensure_algebra_match(other)
             other = other.evaluate().v
         if is_array_like(other):
             return np.dot(self.v, other)
@@ -445,7 +446,8 @@ class SemanticPointer(Fixed):
         angle between the two vectors.
         """
         if isinstance(other, SemanticPointer):
-            infer_types(self, other)
+            if infer_types(self, other) == TAnyVocab:
+                self._ensure_algebra_match(other)
             other = other.evaluate().v
         scale = np.linalg.norm(self.v) * np.linalg.norm(other)
         if scale == 0:
@@ -505,7 +507,8 @@ class SemanticPointer(Fixed):
     def mse(self, other):
         """Return the mean-squared-error between two vectors."""
         if isinstance(other, SemanticPointer):
-            infer_types(self, other)
+            if infer_types(self, other) == TAnyVocab:
+                self._ensure_algebra_match(other)
             other = other.evaluate().v
         return np.sum((self.v - other) ** 2) / len(self.v)
 
